@@ -52,8 +52,9 @@ whose outcome a floating-point evaluation could legitimately flip:
   * under the same condition, the distance of ``window`` to the nearest grid
     point - only when the alternative window length would change some query's
     result set (i.e. the window does not cover all frames either way);
-  * the distance of every level's start / end to the tolerance of the
-    'starts at 0' / 'ends with the top level' validation (1e-8 + 1e-5*|end|).
+  * for a level that does not start exactly at 0 / end exactly where the top
+    level ends: the distance of the discrepancy to the (undocumented,
+    numpy.allclose-like) tolerance of that validation, 1e-8 + 1e-5*|end|.
 Exactly-on-grid values are ties decided exactly (they open the frame they
 touch) and cost nothing.  ``inf`` if nothing of the above applies.
 
@@ -147,15 +148,18 @@ def _validate_span(levels, margin):
             raise ValueError("empty level")
         lo = min(a for a, _ in segs)
         hi = max(b for _, b in segs)
+        # exact agreement (start exactly 0, end exactly the top level's end) is
+        # valid under any tolerance and costs no margin; otherwise the
+        # distance to the assumed tolerance is reported
         if lo > _ATOL:
             raise ValueError("Segment intervals do not start at 0")
-        if lo != _ATOL:
+        if lo != 0 and lo != _ATOL:
             margin = min(margin, float(abs(lo - _ATOL)))
-        tol = _ATOL + _RTOL * abs(top_end)
+        tol = _ATOL + _RTOL * abs(hi)
         d = abs(hi - top_end)
         if d > tol:
             raise ValueError("End times do not match")
-        if d != tol:
+        if d != 0 and d != tol:
             margin = min(margin, float(abs(d - tol)))
     return margin
 
